@@ -141,15 +141,15 @@ class C13(Scenario):
         e0 = E.init_env(decl)
         with ctx.impl(f"{tag}get_initial_conditions"):
             ic = m.get_initial_conditions()
-        ctx.true(f"{tag}initial conditions names", list(ic) == names)
+        ctx.true(f"{tag}initial conditions names", set(ic) == set(names))
         for v in names:
             ctx.eq(f"{tag}get_initial_conditions[{v}]", ic[v], e0[v])
         plike = E.parameter_like(decl)
         with ctx.impl(f"{tag}classification"):
             dpn = m.get_derived_parameter_names()
             dvn = m.get_derived_variable_names()
-        ctx.true(f"{tag}derived parameters = derived depending only on parameters (transitively)", dpn == plike, info=f"{dpn} vs {plike}")
-        ctx.true(f"{tag}derived variables = the rest", dvn == [d for d in decl.derived if d not in plike], info=str(dvn))
+        ctx.true(f"{tag}derived parameters = derived depending only on parameters (transitively)", set(dpn) == set(plike) and len(dpn) == len(plike), info=f"{dpn} vs {plike}")
+        ctx.true(f"{tag}derived variables = the rest", set(dvn) == {d for d in decl.derived if d not in plike} and len(dvn) == len(set(dvn)), info=str(dvn))
         # default state
         with ctx.impl(f"{tag}get_args()"):
             a0 = m.get_args()
